@@ -120,6 +120,35 @@ fn prog_threads(threads: usize, alphabet: &[&str], prefix: &str, quick: Option<u
     }
 }
 
+/// single-context programs [[a,b,c]] (`t`=1); `no_kept`: without FDk (with no pool thread a future that is polled once and
+/// then kept owns its queue, by design)
+fn prog_seq(kinds: &[&str], prefix: &str, no_kept: bool, quick: Option<usize>, thorough: usize, quick_stride: usize) -> Vec<Item> {
+    let mut v = vec![];
+    let n = OPS.len() as i64;
+    let mut idx = 0usize;
+    for a in 0..n {
+        for b in 0..n {
+            for c in 0..n {
+                let codes = [a, b, c];
+                if !(kinds.is_empty() || codes.iter().any(|c| kinds.contains(&OPS[*c as usize]))) {
+                    continue;
+                }
+                if no_kept && codes.iter().any(|c| OPS[*c as usize] == "FDk") {
+                    continue;
+                }
+                // at least one operation that leaves something behind for the next ones to meet
+                if !codes[..2].iter().any(|c| matches!(OPS[*c as usize], "FDd" | "AF" | "FDx" | "FSx" | "FDk" | "Dn" | "Dx" | "Sn" | "D")) {
+                    continue;
+                }
+                idx += 1;
+                let q = if idx % quick_stride == 0 { quick } else { None };
+                v.push(small(it("prog", &format!("{},t=1,a={},b={},c={}", prefix, a, b, c), q, thorough)));
+            }
+        }
+    }
+    v
+}
+
 /// the same instances again with the saturated-start prelude (pool pinned, stale schedule entry, released by the environment)
 fn with_pre(v: &mut Vec<Item>, picks: &[(&'static str, &str)], quick: Option<usize>, thorough: usize) {
     for (sc, cfg) in picks {
@@ -279,6 +308,14 @@ pub fn plan(prop: &str) -> Vec<Item> {
             v.extend(prog_pairs(kinds, "pool=1,sat=1", false, Some(0), 1, 1));
             v.extend(prog_pairs(kinds, "pool=1,sw=1", false, Some(0), 1, 1));
             v.extend(prog_pairs(kinds, "pool=0,sw=1", true, Some(0), 1, 1));
+            // one context, three operations in sequence, no pool thread: whatever the context left queued or suspended on the
+            // object is carried by its later awaiting / synchronous operations (seed C08-j)
+            if prop != "C01" && prop != "C02" {
+                v.extend(prog_seq(kinds, "pool=0", true, Some(1), 2, 1));
+                v.extend(prog_seq(kinds, "pool=1", false, Some(0), 1, 3));
+            } else {
+                v.extend(prog_seq(kinds, "pool=0", true, Some(0), 1, 2));
+            }
         }
         _ => {}
     }
@@ -615,6 +652,12 @@ fn plan_base(prop: &str) -> Vec<Item> {
                 v.push(it("fs_cancel", &format!("pool=0,mode={},syncer=1", mode), Some(2), 3));
             }
             v.push(it("fs_cancel", "pool=1,mode=0,ahead=1", Some(2), 3));
+            // no pool thread: the awaiting task drains the queue while it waits for its slot, an earlier operation suspends, and
+            // that operation's wake-up has to bring the task back (seed C08-j)
+            for mode in [0, 4] {
+                v.push(it("fs_cancel", &format!("pool=0,mode={},ahead=1", mode), Some(3), 4));
+                v.push(it("fs_cancel", &format!("pool=0,mode={},ahead=1,inl=1", mode), Some(2), 3));
+            }
             for shape in 0..4 {
                 v.push(it("fs_nested", &format!("pool=1,shape={}", shape), Some(2), 3));
                 v.push(it("fs_nested", &format!("pool=2,shape={}", shape), Some(1), 2));
